@@ -5,11 +5,13 @@ import (
 	"io"
 	"net"
 	"sync"
+	"time"
 
 	ws "github.com/gorilla/websocket"
 	"github.com/zishang520/engine.io-go-parser/packet"
 	"github.com/zishang520/engine.io/v2/log"
 	"github.com/zishang520/engine.io/v2/types"
+	"github.com/zishang520/engine.io/v2/utils"
 )
 
 var ws_log = log.NewLog("engine:ws")
@@ -19,6 +21,8 @@ type websocket struct {
 
 	socket *types.WebSocketConn
 	mu     sync.Mutex
+	// batches handed to Send whose writer goroutine has not finished yet
+	sending sync.WaitGroup
 }
 
 // WebSocket transport
@@ -125,6 +129,7 @@ func (w *websocket) onMessage(data types.BufferInterface) {
 // Writes a packet payload.
 func (w *websocket) Send(packets []*packet.Packet) {
 	w.SetWritable(false)
+	w.sending.Add(1)
 	go w.send(packets)
 }
 func (w *websocket) send(packets []*packet.Packet) {
@@ -133,6 +138,7 @@ func (w *websocket) send(packets []*packet.Packet) {
 		w.SetWritable(true)
 		w.Emit("ready")
 	}()
+	defer w.sending.Done()
 
 	w.mu.Lock()
 	defer w.mu.Unlock()
@@ -230,8 +236,24 @@ func (w *websocket) write(data types.BufferInterface, compress bool) {
 // Closes the transport.
 func (w *websocket) DoClose(fn types.Callable) {
 	ws_log.Debug(`closing`)
+	if fn != nil && !w.Discarded() {
+		// an orderly close: a batch handed over before it can still be on its way to the connection
+		// (its writer goroutine may not even have started) and goes out first; the close timeout
+		// bounds the wait for a peer that has stopped reading
+		fn()
+		timer := utils.SetTimeout(func() { w.socket.Close() }, streamCloseTimeout)
+		go func() {
+			w.sending.Wait()
+			utils.ClearTimeout(timer)
+			w.socket.Close()
+		}()
+		return
+	}
 	defer w.socket.Close()
 	if fn != nil {
 		fn()
 	}
 }
+
+// how long an orderly close of a WebSocket or WebTransport connection waits for the batch in flight
+const streamCloseTimeout = 30 * time.Second
